@@ -11,7 +11,7 @@ use crate::{
     framework::{Check, Tier, run_seed},
     hooks::HUB,
     prng::{Fnv, Rng, mix},
-    vut::{AllFormats, Expect, FORMATS, Vut, make},
+    vut::{Expect, FORMATS, Maker, Vut, make_all, make_nopco, make_nozc},
 };
 
 #[derive(Clone, Debug, PartialEq)]
@@ -156,13 +156,14 @@ impl Cfg {
     }
 }
 
-pub const ELEMS: &[&str] = &["u64", "u32", "u16", "u8", "i64", "f64", "f32"];
+pub const ELEMS: &[&str] = &["u64", "u32", "u16", "u8", "i64", "f64", "f32", "u128", "wrapped-u32"];
 
 pub fn elem_size(name: &str) -> usize {
     match name {
         "u8" => 1,
         "u16" => 2,
-        "u32" | "f32" => 4,
+        "u32" | "f32" | "wrapped-u32" => 4,
+        "u128" => 16,
         _ => 8,
     }
 }
@@ -362,6 +363,7 @@ pub struct Run<'a, T: Elem> {
     dir: std::path::PathBuf,
     db: Option<Database>,
     slots: Vec<Slot<T>>,
+    maker: Maker<T>,
     stats: &'a mut Stats,
     step: usize,
     refused_seen: bool,
@@ -376,19 +378,23 @@ enum StepOutcome {
     Diverged,
 }
 
-impl<'a, T: AllFormats> Run<'a, T> {
-    fn new(cfg: &'a Cfg, dir: std::path::PathBuf, stats: &'a mut Stats) -> RunResult<Self> {
+impl<'a, T: Elem> Run<'a, T> {
+    fn new(cfg: &'a Cfg, dir: std::path::PathBuf, stats: &'a mut Stats, maker: Maker<T>) -> RunResult<Self> {
         let db = Database::open(&dir).map_err(|e| Fail::Harness(format!("open: {e}")))?;
         let mut slots = Vec::new();
         for (i, f) in cfg.formats.iter().enumerate() {
-            let mut v = make::<T>(f, &format!("v{i}"));
+            // formats this element type has no implementation for are skipped
+            let Some(mut v) = maker(f, &format!("v{i}")) else { continue };
             v.open(&db, 0, 1, cfg.retention).map_err(|e| Fail::Harness(format!("initial import of {f}: {e}")))?;
             slots.push(Slot {
                 v,
                 m: Model { vals: Vec::new(), stamp: 0, commits: Vec::new(), dirty: false, disk: Some(Vec::new()), version: 1 },
             });
         }
-        Ok(Self { cfg, dir, db: Some(db), slots, stats, step: 0, refused_seen: false, per_page: 16 * 1024 / T::SIZE, final_step: false, written: Vec::new() })
+        if slots.is_empty() {
+            return harness("no format accepts this element type");
+        }
+        Ok(Self { cfg, dir, db: Some(db), slots, maker, stats, step: 0, refused_seen: false, per_page: 16 * 1024 / T::SIZE, final_step: false, written: Vec::new() })
     }
 
     fn db(&self) -> &Database {
@@ -740,7 +746,7 @@ impl<'a, T: AllFormats> Run<'a, T> {
             let db = self.db.as_ref().unwrap();
             let refused = match op {
                 Op::BadImportVersion => {
-                    let mut probe = make::<T>(fmt, &name);
+                    let mut probe = (self.maker)(fmt, &name).expect("same format");
                     // the handle must be dropped first: a second live handle on the region is fine for import
                     catch(|| probe.open(db, 0, self.slots[k].m.version + 7, self.cfg.retention).is_err())
                 }
@@ -749,7 +755,7 @@ impl<'a, T: AllFormats> Run<'a, T> {
                         "bytes" | "zerocopy" => ["lz4", "pco", "zstd"][(self.step + k) % 3],
                         _ => ["bytes", "zerocopy"][(self.step + k) % 2],
                     };
-                    let mut probe = make::<T>(other, &name);
+                    let Some(mut probe) = (self.maker)(other, &name) else { continue };
                     catch(|| probe.open(db, 0, self.slots[k].m.version, self.cfg.retention).is_err())
                 }
             };
@@ -999,11 +1005,11 @@ pub enum StepOutcomeResult {
     Diverged,
 }
 
-fn run_typed<T: AllFormats>(cfg: &Cfg, ops: &[Op], stats: &mut Stats) -> RunResult<()> {
+fn run_typed<T: Elem>(cfg: &Cfg, ops: &[Op], stats: &mut Stats, maker: Maker<T>) -> RunResult<()> {
     let scratch = Scratch::new("w3");
     HUB.reset();
     rawdb::verif::set_knob(rawdb::verif::KNOB_MMAP_CROSSOVER_BYTES, cfg.crossover);
-    let mut run = Run::<T>::new(cfg, scratch.sub("db"), stats)?;
+    let mut run = Run::<T>::new(cfg, scratch.sub("db"), stats, maker)?;
     let mut result = Ok(());
     for op in ops {
         match run.step(op) {
@@ -1031,13 +1037,15 @@ fn run_typed<T: AllFormats>(cfg: &Cfg, ops: &[Op], stats: &mut Stats) -> RunResu
 
 pub fn run_history(cfg: &Cfg, ops: &[Op], stats: &mut Stats) -> RunResult<()> {
     match cfg.elem.as_str() {
-        "u64" => run_typed::<u64>(cfg, ops, stats),
-        "u32" => run_typed::<u32>(cfg, ops, stats),
-        "u16" => run_typed::<u16>(cfg, ops, stats),
-        "u8" => run_typed::<u8>(cfg, ops, stats),
-        "i64" => run_typed::<i64>(cfg, ops, stats),
-        "f64" => run_typed::<f64>(cfg, ops, stats),
-        "f32" => run_typed::<f32>(cfg, ops, stats),
+        "u64" => run_typed::<u64>(cfg, ops, stats, make_all::<u64>),
+        "u32" => run_typed::<u32>(cfg, ops, stats, make_all::<u32>),
+        "u16" => run_typed::<u16>(cfg, ops, stats, make_all::<u16>),
+        "u8" => run_typed::<u8>(cfg, ops, stats, make_all::<u8>),
+        "i64" => run_typed::<i64>(cfg, ops, stats, make_all::<i64>),
+        "f64" => run_typed::<f64>(cfg, ops, stats, make_all::<f64>),
+        "f32" => run_typed::<f32>(cfg, ops, stats, make_all::<f32>),
+        "u128" => run_typed::<u128>(cfg, ops, stats, make_nopco::<u128>),
+        "wrapped-u32" => run_typed::<crate::elem::Wrapped>(cfg, ops, stats, make_nozc::<crate::elem::Wrapped>),
         other => harness(format!("unknown element type {other}")),
     }
 }
@@ -1114,6 +1122,16 @@ impl W3Check {
             if !keep.is_empty() {
                 formats = keep;
             }
+        }
+        // keep only formats that have an implementation for the element type
+        let supports = |f: &str| match elem.as_str() {
+            "u128" => !f.contains("pco"),
+            "wrapped-u32" => f != "zerocopy",
+            _ => true,
+        };
+        formats.retain(|f| supports(f));
+        if formats.is_empty() {
+            formats = FORMATS.iter().map(|s| s.to_string()).filter(|f| supports(f) && (self.id != "C07" || !matches!(f.as_str(), "bytes" | "zerocopy"))).collect();
         }
         let commits = matches!(self.id, "C04") || (matches!(self.id, "C08" | "C20" | "C07") && rng.chance(1, 2));
         Cfg {
